@@ -557,3 +557,73 @@ def run_out(pid, tier, seed, replay=None):
         return 0
     finally:
         sc.close()
+
+
+# ---------------------------------------------------------------------------
+# C16
+
+def run_c16(tier, seed, replay=None):
+    pid = "C16"
+    t0 = time.time()
+    q = tier == "quick"
+    sc = Scratch()
+    try:
+        zx = build_harness(("verif", "vectors"))
+        zxr = build_harness(("verif", "vectors"), race=True)
+        known = load_known()
+        cfg = "VecCacheQ.cfg" if q else "VecCache.cfg"
+        outp, st = tlc(sc, "VecCache", cfg=cfg, workers=8, timeout=2400, outname="vc.out")
+        errs = tlc_errors(outp)
+        if errs:
+            raise Inconclusive("VecCache model: " + "; ".join(errs[:3]))
+        cnt = split_printed(outp, sc, {"WALK": ("walks.ndjson", "lines"), "TABLES": ("tables.json", "one")})
+        os.remove(outp)
+        if cnt["WALK"] == 0:
+            raise Inconclusive("VecCache model emitted no walks")
+        total = cnt["WALK"]
+        if replay:
+            obj = json.load(open(replay))
+            with open(sc.path("walks.ndjson"), "w") as fh:
+                fh.write(json.dumps(obj["diff"]["walk"]) + "\n")
+        n = sample_lines(sc.path("walks.ndjson"), 5000 if q else 60000, seed)
+        diffs, tot = [], {"steps": 0, "evictions": 0, "stress_rounds": 0}
+        for exe, walks, rounds, name in ((zx, sc.path("walks.ndjson"), 0, "seq"), (zxr, "/dev/null", 3 if q else 40, "race")):
+            p = subprocess.run([exe, "veccache", "-in", walks, "-tables", sc.path("tables.json"), "-dir", sc.path("segs-" + name),
+                                "-out", sc.path("diffs-%s.ndjson" % name), "-n", str(rounds)],
+                               stdout=subprocess.PIPE, stderr=subprocess.STDOUT, text=True, timeout=7200)
+            if "WARNING: DATA RACE" in p.stdout and ("/zapx/" in p.stdout or REPO in p.stdout):
+                r = p.stdout[p.stdout.index("WARNING: DATA RACE"):][:4000]
+                diffs.append({"walk": {"steps": []}, "step": -3, "what": "data race (race detector)", "got": r, "want": ""})
+            elif p.returncode != 0:
+                raise Inconclusive("harness veccache failed: " + p.stdout[-1500:])
+            rs = kv(p.stdout)
+            for k in tot:
+                tot[k] += rs.get(k, 0)
+            log("R(%s): %s" % (name, p.stdout.strip()[-200:]))
+            diffs += read_diffs(sc.path("diffs-%s.ndjson" % name))
+        if tot["steps"] == 0:
+            raise Inconclusive("vacuous veccache replay (no steps)")
+        if tot["evictions"] == 0 and not replay:
+            # allowed by the specification (eviction is never required), but worth knowing
+            log("NOTE: no cache eviction was observed in this run (expiry ticks never released an entry)")
+        if replay:
+            if diffs:
+                log("replay: " + trunc(diffs[0], 800))
+                log("VIOLATION property=%s replay=%s" % (pid, replay))
+                return 1
+            log("replay: no violation of %s on the current tree" % pid)
+            return 0
+        with open(sc.path("walks.ndjson")) as fh:
+            lines = fh.readlines()
+        cov = {"family": "veccache", "states": st["distinct_states"], "transitions": st["states_generated"],
+               "traces_validated_against_impl": n, "samples": [json.loads(lines[-1])],
+               "model": {"module": "VecCache.tla", "cfg": cfg, "invariants": ["HandleSafe", "ClosedOnce", "NoLeak", "RefsExact"], "wall_s": st["wall_s"]},
+               "walks_emitted": total, "walks_replayed": n, "steps": tot["steps"], "evictions_observed": tot["evictions"], "concurrent_rounds": tot["stress_rounds"],
+               "configurations": "every edge of the VecCache state graph (open with every exclusion bitmap over two documents, filtered or not; search; close handle; expiry tick; segment close) replayed on in-memory and mmap segments with the engine double; engine counters after every step; concurrent searchers with the monitor at 1 ms under -race",
+               "evaluations": tot["steps"], "distinct_nontrivial": n,
+               "rule": "one evaluation = one step of a walk executed on the real cache with counters inspected; distinct = distinct walks", "exhaustive": n == total}
+        assumptions = ["the engine double honours the go-faiss contract (native FAISS is absent)", "handles are closed before the segment is closed; a handle is closed once",
+                       "eviction is allowed but never required by the specification"]
+        return finish(pid, tier, seed, t0, cov, assumptions, diffs, lambda d: "veccache/" + d["what"], known, lambda d: d)
+    finally:
+        sc.close()
